@@ -71,6 +71,48 @@ def _traces(emu):
     return out
 
 
+# calls that only answer "does the pid exist / is it a zombie" once the method has gone on after a first fault
+# (the pid state of the case already says what they answer): not second-fault points
+PROBE_CALLS = {"bsd": {"proc_oneshot_info", "os.kill", "pids", "proc_name"}, "osx": set(),
+               "sunos": {"os.kill", "os.stat", "os.listdir", "pids"}, "aix": {"os.kill", "os.stat", "os.listdir", "pids"}, "windows": set()}
+
+
+def swept_errs(emu):
+    out = []
+    for ename, eno in ERRNOS:
+        for win in ([None] + WIN_CODES if emu.windows else [None]):
+            out.append((ename, eno, win))
+    return out
+
+
+def continuation(emu, tr, k1):
+    """second-fault points of a faulted run that went on: (index, call) after k1, minus un-faultable and probe calls"""
+    skip = NO_FAULT | PROBE_CALLS[T.FAMILY[emu.ident]]
+    return [(k, c) for k, c in enumerate(tr) if k > k1 and c not in skip]
+
+
+def _traces2(emu):
+    """(method, pid, call1, mode, [calls after call1]) for every first fault after which the method goes on
+    (returns a value although the call raised): absorbed by an inner handler ('fallback') or re-run by
+    retry_error_partial_copy ('rerun', recognised by its one sleep)"""
+    rows = []
+    for m in emu.process_methods():
+        for pid in PIDS:
+            obs0, tr0 = emu.run(m, pid=pid)
+            for k1, call1 in enumerate(tr0):
+                if call1 in NO_FAULT:
+                    continue
+                for ename, eno, win in swept_errs(emu):
+                    obs, tr = emu.run(m, pid=pid, fault_at=k1, err=(eno, win), state="alive")
+                    if obs["kind"] != "value" or len(tr) <= k1 or tr[k1] != call1:
+                        continue
+                    mode = "rerun" if obs.get("sleeps", 0) else "fallback"
+                    row = (m, pid, call1, mode, [c for _, c in continuation(emu, tr, k1)])
+                    if row not in rows:
+                        rows.append(row)
+    return rows
+
+
 def facts(snap, F):
     trees = {}
 
@@ -156,6 +198,16 @@ def facts(snap, F):
     F.try_add("traces", "List (String × List (String × Nat × List String))", lean_traces,
               "per platform identity: native calls made by Process(pid).<method>() over the scripted native layer (no fault)")
 
+    def lean_traces2():
+        rows = []
+        for ident in E.IDENTS:
+            tr = _traces2(emus[ident])
+            rows.append(T.lpair(lean_str(ident), lean_list(
+                tr, lambda t: "(%s, %d, %s, %s, %s)" % (lean_str(t[0]), t[1], lean_str(t[2]), lean_str(t[3]), T.lstr_list(t[4])))))
+        return "[" + ", ".join(rows) + "]"
+    F.try_add("traces2", "List (String × List (String × Nat × String × String × List String))", lean_traces2,
+              "per platform identity: (method, pid, first faulted call, how the method went on: fallback | rerun, native calls it still makes afterwards) for every first fault after which Process(pid).<method>() still returns")
+
     def lean_slotmaps():
         rows = []
         for fam in fams:
@@ -191,6 +243,24 @@ def facts(snap, F):
         return "[" + ", ".join(rows) + "]"
     F.try_add("feeds", "List (String × List (String × String × String × String))", lean_feeds,
               "per module: (method, namedtuple, field | #k, source) — which slot / constant each field (or bare value) is fed from")
+
+    def lean_unnamed():
+        rows = []
+        for fam in fams:
+            for m, ex in T.unnamed_record_refs(emus[T.FAMILY_IDENT[fam]], tree(T.FAMILY_FILE[fam])):
+                rows.append("(%s, %s, %s)" % (lean_str(fam), lean_str(m), lean_str(ex)))
+        return "[" + ", ".join(rows) + "]"
+    F.try_add("unnamedRecordRefs", "List (String × String × String)", lean_unnamed,
+              "(module, function, expression): every read of a native one-shot record, on any path of any function, that is NOT `<record>[<map>['<slot>']]`, and every other use of a slot map; empty = all record reads are named-slot reads")
+
+    def lean_fallback_feeds():
+        rows = []
+        for fam in fams:
+            fb = T.fallback_feeds(emus[T.FAMILY_IDENT[fam]], tree(T.FAMILY_FILE[fam]))
+            rows.append(T.lpair(lean_str(fam), lean_list(fb, lambda q: T.lpair(lean_str(q[0]), lean_str(q[1])))))
+        return "[" + ", ".join(rows) + "]"
+    F.try_add("fallbackFeeds", "List (String × List (String × String))", lean_fallback_feeds,
+              "per module: (method, map.slot) of every named slot read inside an `except` handler of a Process method (the alternative / slower-fallback paths)")
 
     def lean_returns():
         rows = []
@@ -283,7 +353,7 @@ DIRECT_EXPECT = {
                                  ["nonpaged_pool", 4107], ["pagefile", 4108], ["peak_pagefile", 4109], ["private", 4110]],
 }
 # methods whose slot rows describe the documented fall-back path (taken when the fast call is denied)
-FALLBACK_ROWS = {("windows", "memory_info"), ("windows", "io_counters"), ("windows", "cpu_times"),
+FALLBACK_ROWS = {("windows", "memory_info"), ("windows", "memory_full_info"), ("windows", "io_counters"), ("windows", "cpu_times"),
                  ("windows", "create_time"), ("windows", "num_handles"), ("sunos", "uids"), ("sunos", "gids")}
 KNOWN_REGIONS = {
     "C20-win-ppid-bare": ("windows", "ppid", "ppid_map"),
@@ -354,18 +424,42 @@ def fault_cases(emu, tier, rng=None):
                                            "pid0": pid0, "sticky": sticky}
 
 
-def run_fault(emu, c):
+def run_fault(emu, c, with_trace=False):
     eno = dict(ERRNOS)[c["errno"]]
+    kw = {}
+    if c.get("kind") == "fault2":
+        kw = {"fault2_at": c["k2"], "err2": (dict(ERRNOS)[c["errno2"]], c["winerror2"])}
     obs, tr = emu.run(c["meth"], pid=c["pid"], fault_at=c["k"], err=(eno, c["winerror"]), state=c["state"],
-                      pid0_listed=c["pid0"], sticky=c["sticky"], name=CACHED_NAME, ppid=CACHED_PPID)
+                      pid0_listed=c["pid0"], sticky=c.get("sticky", False), name=CACHED_NAME, ppid=CACHED_PPID, **kw)
     out = impl_outcome(obs)
     out["sleeps"] = obs.get("sleeps", 0)
     if len(tr) <= c["k"] or tr[c["k"]] != c["call"]:
         out = {"k": "trace-drift", "trace": tr[:8]}
-    return out
+    elif c.get("kind") == "fault2" and (len(tr) <= c["k2"] or tr[c["k2"]] != c["call2"]):
+        out = {"k": "trace-drift", "trace": tr[:8]}
+    return (out, tr) if with_trace else out
+
+
+def two_fault_cases(emu, cases, impls):
+    """Two-fault sequences: every single-fault case after which the method went on (it returned a value although a
+    call raised: inner handler absorbed the error, or the partial-copy retry re-ran the body) × every later native
+    call of THAT run's trace (un-faultable and pure probe calls excepted) × every swept error."""
+    for c, impl in zip(cases, impls):
+        if impl.get("k") != "value" or c["sticky"]:
+            continue
+        _, tr = run_fault(emu, c, with_trace=True)
+        for k2, call2 in continuation(emu, tr, c["k"]):
+            for ename, _, win in swept_errs(emu):
+                d = dict(c, kind="fault2", k2=k2, call2=call2, errno2=ename, winerror2=win)
+                d.pop("sticky", None)
+                yield d
 
 
 def fault_line(c):
+    if c.get("kind") == "fault2":
+        return {"op": "fault2", "plat": c["ident"], "meth": c["meth"], "call": c["call"], "errno": c["errno"],
+                "winerror": c["winerror"], "call2": c["call2"], "errno2": c["errno2"], "winerror2": c["winerror2"],
+                "state": c["state"], "pid": c["pid"], "pid0": model_pid0(c["ident"], c["pid"], c["state"], c["pid0"])}
     return {"op": "fault", "plat": c["ident"], "meth": c["meth"], "call": c["call"], "errno": c["errno"],
             "winerror": c["winerror"], "state": c["state"], "pid": c["pid"],
             "pid0": model_pid0(c["ident"], c["pid"], c["state"], c["pid0"]), "persistent": c["sticky"]}
@@ -386,11 +480,15 @@ def judge_fault(c, impl, m, res):
         if region and impl.get("k") == "raw" and impl.get("errno") == c["errno"] and impl.get("winerror") == c["winerror"]:
             res.known_seen[region] = res.known_seen.get(region, 0) + 1
             return False
+        second = ""
+        if c.get("kind") == "fault2":
+            second = " (the method goes on), then native call #%d %s raises %s(winerror=%s)" % (
+                c["k2"], c["call2"], c["errno2"], c["winerror2"])
         res.disagree("spec", c, impl, mo, {"cell": m["spec"]["cell"], "allowed": allowed},
-                     note="%s.Process(%d).%s(): native call #%d %s raises %s(winerror=%s), pid then %s: outcome outside the specification"
-                     % (c["ident"], c["pid"], c["meth"], c["k"], c["call"], c["errno"], c["winerror"], c["state"]))
+                     note="%s.Process(%d).%s(): native call #%d %s raises %s(winerror=%s)%s, pid then %s: outcome outside the specification"
+                     % (c["ident"], c["pid"], c["meth"], c["k"], c["call"], c["errno"], c["winerror"], second, c["state"]))
         return True
-    if c["sticky"] and impl.get("k") == "ad" and m["model"]["sleeps"] > 0 and impl.get("sleeps") != m["spec"]["retries"]:
+    if c.get("sticky") and impl.get("k") == "ad" and m["model"]["sleeps"] > 0 and impl.get("sleeps") != m["spec"]["retries"]:
         res.disagree("spec", c, impl, m["model"], {"retries": m["spec"]["retries"]},
                      note="ERROR_PARTIAL_COPY is retried %s times before AccessDenied, the documented number is %s"
                      % (impl.get("sleeps"), m["spec"]["retries"]))
@@ -478,11 +576,13 @@ def run_value(emu, c):
 
 def fallback_expect(meth, spec_rows_by_method):
     """Windows fall-back tuples: what the documented namedtuple must contain"""
-    if meth == "memory_info":
+    if meth in ("memory_info", "memory_full_info"):
         _, t = expected_rows(spec_rows_by_method["_get_raw_meminfo"])
         srcs = [r["src"] for r in spec_rows_by_method["_get_raw_meminfo"]]
         rss, vms = t[srcs.index("pinfo_map.wset")], t[srcs.index("pinfo_map.pagefile")]
         fields = [f for f, _ in DIRECT_EXPECT[("windows", "memory_info")]]
+        if meth == "memory_full_info":     # pfullmem = pmem + (uss,), uss = proc_memory_uss() pages × page size
+            return {"nt": "pfullmem", "fields": [[f, v] for f, v in zip(fields + ["uss"], [rss, vms] + t + [3 * 4096])]}
         return {"nt": "pmem", "fields": [[f, v] for f, v in zip(fields, [rss, vms] + t)]}
     if meth == "io_counters":
         _, t = expected_rows(spec_rows_by_method["io_counters"])
@@ -683,6 +783,36 @@ def correspond(ctx, res):
                     samp = {"case": c, "impl": impl, "model": m.get("model")}
                 res.case(tuple(sorted((k, str(v)) for k, v in c.items())), nontrivial=True, sample=samp)
                 judge_fault(c, impl, m, res)
+    # ---------------- two-fault sequences
+    total_two, domain_two = 0, 0
+    for ident in E.IDENTS:
+        emu = emus[ident]
+        cases = [c for c in fault_cases(emu, ctx.tier) if c["pid"] in PIDS]
+        impls = [run_fault(emu, c) for c in cases]
+        two = list(two_fault_cases(emu, cases, impls))
+        domain_two += len(two)
+        if ctx.tier == "quick" and len(two) > ctx.n(1200, 1200):
+            two = ctx.rng.sample(two, ctx.n(1200, 1200))
+        impls2 = [run_fault(emu, c) for c in two]
+        for part_c, part_i in zip(_chunks(two, 20000), _chunks(impls2, 20000)):
+            outs = ctx.driver().batch([fault_line(c) for c in part_c])
+            drv_lines += len(part_c)
+            for c, impl, m in zip(part_c, part_i, outs):
+                total_two += 1
+                res.count("family:two-faults")
+                res.count("two-faults:" + ident)
+                res.count("two-faults-impl:" + impl.get("k", "?"))
+                if "model" in m:
+                    res.count("two-faults-first:" + m["model"]["first"]["k"])
+                samp = {"case": c, "impl": impl, "model": m.get("model")} if total_two in (1, 700) else None
+                res.case(tuple(sorted((k, str(v)) for k, v in c.items())), nontrivial=True, sample=samp)
+                if "model" in m and m["model"]["first"]["k"] == "ended":
+                    res.disagree("model", c, impl, m["model"], None,
+                                 note="the implementation went on after the first fault, the Lean model says the method ended there")
+                    continue
+                judge_fault(c, impl, m, res)
+    res.extra["two_fault_cases"] = total_two
+    res.extra["two_fault_domain"] = domain_two
     # ---------------- values
     for ident in E.IDENTS:
         emu = emus[ident]
@@ -744,7 +874,7 @@ def _rerun(ctx, inp, res):
     emus = _emus(ctx.snap)
     emu = emus[inp["ident"]]
     kind = inp.get("kind")
-    if kind == "fault":
+    if kind in ("fault", "fault2"):
         impl = run_fault(emu, inp)
         m = ctx.driver().batch([fault_line(inp)])[0]
         return judge_fault(inp, impl, m, res) and res.disagreements[-1]["kind"] == "spec"
